@@ -934,3 +934,143 @@ Proof.
   { clear Hok Hh Hok'. revert d Hne. induction ops as [|o ops IH]; intros d Hne; [exact Hne|]. cbn. apply IH. apply dom_step_nonempty. exact Hne. }
   destruct (val_of_dom_total _ Hok' Hne') as [v' Hv]. exists v'. split; [exact Hv|]. apply marshal_dom; assumption.
 Qed.
+
+(* ---------------- edits on values: struct fields (partial: no tombstones) ---------------- *)
+Definition fields_of (kids : list (pkey * dom)) : list (Z * tval) :=
+  map (fun kv : pkey * tval => (to_s 16 (key_l (fst kv)), snd kv)) (live_pairs kids).
+
+(* every slot is a live field with an id in the FieldID range *)
+Definition clean_struct (kids : list (pkey * dom)) : Prop :=
+  Forall (fun kd => exists id v, fst kd = KField id /\ 0 <= id < 65536 /\ val_of_dom (snd kd) = Some v) kids.
+
+Lemma fid_to_s id : 0 <= id < 65536 -> fid (to_s 16 id) = id.
+Proof. intros H. unfold fid. change 65536 with (2 ^ 16). rewrite to_s_mod by lia. apply Z.mod_small. exact H. Qed.
+
+Lemma fields_of_cons_live id c v kids : val_of_dom c = Some v ->
+  fields_of ((KField id, c) :: kids) = (to_s 16 id, v) :: fields_of kids.
+Proof. intros H. unfold fields_of, live_pairs. cbn [flat_map fst snd]. rewrite H. reflexivity. Qed.
+
+Lemma fields_of_app kids more : fields_of (kids ++ more) = fields_of kids ++ fields_of more.
+Proof. unfold fields_of, live_pairs. rewrite flat_map_app, map_app. reflexivity. Qed.
+
+Lemma struct_upd_field id x kids : clean_struct kids -> 0 <= id < 65536 ->
+  ast_upd_field id x (fields_of kids) =
+  if has_kid (KField id) kids then Some (fields_of (upd_kid (KField id) (fun _ => DLeaf x) kids)) else None.
+Proof.
+  intros Hc Hid. unfold has_kid. induction Hc as [|[k c] kids [id' [v [Hk [Hr Hv]]]] _ IH]; [reflexivity|].
+  cbn [fst snd] in *. subst k. rewrite (fields_of_cons_live _ _ _ _ Hv).
+  cbn [ast_upd_field find_kid upd_kid fst snd key_eqb]. rewrite fid_to_s by exact Hr.
+  destruct (Z.eqb_spec id' id) as [->|Hne].
+  - rewrite (fields_of_cons_live id (DLeaf x) x kids eq_refl). reflexivity.
+  - rewrite IH. destruct (find_kid (KField id) kids); [|reflexivity].
+    rewrite (fields_of_cons_live _ _ _ _ Hv). reflexivity.
+Qed.
+
+Lemma struct_del_field id kids : clean_struct kids -> 0 <= id < 65536 ->
+  ast_del_field id (fields_of kids) = fields_of (upd_kid (KField id) (fun _ => DEmpty) kids).
+Proof.
+  intros Hc Hid. induction Hc as [|[k c] kids [id' [v [Hk [Hr Hv]]]] _ IH]; [reflexivity|].
+  cbn [fst snd] in *. subst k. rewrite (fields_of_cons_live _ _ _ _ Hv).
+  cbn [ast_del_field upd_kid fst snd key_eqb]. rewrite fid_to_s by exact Hr.
+  destruct (Z.eqb_spec id' id) as [->|Hne].
+  - unfold fields_of, live_pairs. cbn [flat_map fst snd val_of_dom app]. reflexivity.
+  - rewrite IH. rewrite (fields_of_cons_live _ _ _ _ Hv). reflexivity.
+Qed.
+
+Lemma clean_struct_set id x kids : clean_struct kids -> 0 <= id < 65536 -> clean_struct (set_kids (KField id) x kids).
+Proof.
+  intros Hc Hid. unfold set_kids, clean_struct. destruct (has_kid (KField id) kids).
+  - induction Hc as [|[k c] kids Hkd Hl IH]; cbn [upd_kid fst snd]; [constructor|].
+    destruct (key_eqb k (KField id)) eqn:E.
+    + constructor; [|exact Hl]. apply key_eqb_eq in E. subst k. cbn [fst snd]. exists id, x. auto.
+    + constructor; assumption.
+  - cbn [is_index_key]. apply Forall_app. split; [exact Hc|]. constructor; [|constructor]. exists id, x. auto.
+Qed.
+
+(* one edit of a struct node without tombstones: the tree edit IS the value edit *)
+Theorem struct_step_ast et kt raw kids o :
+  kids <> [] -> clean_struct kids ->
+  (match o with OSet (KField id) _ | OClear (KField id) => 0 <= id < 65536 | OGet _ => True | _ => False end) ->
+  val_of_dom (dom_step (DNode T_STRUCT et kt raw kids) o) = Some (ast_step (VStruct (fields_of kids)) o).
+Proof.
+  intros Hne Hc Ho. destruct o as [k x|k|k]; [| |reflexivity]; destruct k as [|id|i|s|n|b]; try contradiction.
+  - cbn [dom_step open_node ast_step].
+    pose proof (struct_upd_field id x kids Hc Ho) as Hu. rewrite Hu. unfold set_kids.
+    destruct (has_kid (KField id) kids) eqn:Eh.
+    + destruct (upd_kid (KField id) (fun _ => DLeaf x) kids) as [|u0 ur] eqn:Eu.
+      * exfalso. revert Eu. apply upd_kid_nonempty. exact Hne.
+      * rewrite <- Eu. reflexivity.
+    + cbn [is_index_key]. destruct (kids ++ [(KField id, DLeaf x)]) as [|u0 ur] eqn:Eu; [destruct kids; discriminate|].
+      rewrite <- Eu. cbn [val_of_dom]. change (T_STRUCT =? T_STRUCT) with true. cbn iota.
+      change (map _ (flat_map _ (kids ++ [(KField id, DLeaf x)]))) with (fields_of (kids ++ [(KField id, DLeaf x)])).
+      rewrite fields_of_app. reflexivity.
+  - cbn [dom_step ast_step val_of_dom]. change (T_STRUCT =? T_STRUCT) with true. cbn iota.
+    rewrite (struct_del_field id kids Hc Ho). reflexivity.
+Qed.
+
+(* histories of struct sets (replace / append by field id), induction over ops:
+   val_of_dom (fold tree_step ops d) = fold ast_step ops (val_of_dom d), hence with dom_history_marshal
+   marshal (fold tree_step ops d) = encode (fold ast_step ops v) *)
+Definition struct_set_op (o : top) : Prop :=
+  match o with OSet (KField id) _ => 0 <= id < 65536 | OGet _ => True | _ => False end.
+
+Theorem struct_history_ast : forall ops et kt raw kids,
+  kids <> [] -> clean_struct kids -> Forall struct_set_op ops ->
+  val_of_dom (fold_left dom_step ops (DNode T_STRUCT et kt raw kids)) = Some (fold_left ast_step ops (VStruct (fields_of kids))).
+Proof.
+  induction ops as [|o ops IH]; intros et kt raw kids Hne Hc Hops.
+  - cbn [fold_left val_of_dom]. reflexivity.
+  - inversion Hops as [|? ? Ho Hops']; subst. cbn [fold_left].
+    assert (Hstep : val_of_dom (dom_step (DNode T_STRUCT et kt raw kids) o) = Some (ast_step (VStruct (fields_of kids)) o)).
+    { apply struct_step_ast; [exact Hne|exact Hc|]. destruct o as [k x|k|k]; try exact I; try contradiction.
+      destruct k; try contradiction. exact Ho. }
+    destruct o as [k x|k|k]; try contradiction.
+    + destruct k as [|id|i|s|n|b]; try contradiction. cbn [struct_set_op] in Ho.
+      cbn [dom_step open_node] in *. pose proof (clean_struct_set id x kids Hc Ho) as Hc'.
+      destruct (set_kids (KField id) x kids) as [|s0 sr] eqn:Es.
+      * exfalso. unfold set_kids in Es. destruct (has_kid (KField id) kids).
+        -- revert Es. apply upd_kid_nonempty. exact Hne.
+        -- cbn [is_index_key] in Es. destruct kids; discriminate.
+      * rewrite <- Es in *. rewrite (IH et kt raw (set_kids (KField id) x kids)); [|rewrite Es; discriminate|exact Hc'|exact Hops'].
+        f_equal. f_equal. cbn [val_of_dom] in Hstep. change (T_STRUCT =? T_STRUCT) with true in Hstep. cbn iota in Hstep.
+        inversion Hstep as [E]. unfold fields_of, live_pairs. exact E.
+    + cbn [dom_step ast_step]. apply IH; assumption.
+Qed.
+
+Lemma struct_hist_ok : forall ops et kt raw kids, hist_ok (DNode T_STRUCT et kt raw kids) ops.
+Proof.
+  induction ops as [|o ops IH]; intros; cbn [hist_ok]; [exact I|]. split.
+  - destruct o; cbn [step_ok open_node]; try exact I. discriminate.
+  - destruct (dom_step_node T_STRUCT et kt raw kids o) as [kids' E]. rewrite E. apply IH.
+Qed.
+
+Lemma clean_struct_of_fields (f : tval -> dom) fs :
+  (forall x, In x fs -> exists v, val_of_dom (f (snd x)) = Some v) ->
+  clean_struct (map (fun x : Z * tval => (KField (fid (fst x)), f (snd x))) fs).
+Proof.
+  intros H. unfold clean_struct. rewrite Forall_forall. intros kd Hin. apply in_map_iff in Hin. destruct Hin as [x [<- Hin]].
+  destruct (H x Hin) as [v Hv]. exists (fid (fst x)), v. cbn [fst snd]. split; [reflexivity|]. split; [|exact Hv].
+  unfold fid. apply Z.mod_pos_bound. lia.
+Qed.
+
+(* the target statement for struct histories of sets (replace a field / append a field by id):
+   marshal (fold tree_step ops (load (encode v))) = encode (fold ast_step ops v) *)
+Theorem struct_history_marshal_ast rec fs ops : wf (VStruct fs) = true -> fs <> [] -> Forall struct_set_op ops ->
+  marshal (tree_of_dom (fold_left dom_step ops (dom_of rec false (VStruct fs)))) =
+  Some (encode (fold_left ast_step ops (VStruct fs))).
+Proof.
+  intros Hwf Hne Hops. destruct (dom_of_sound rec (VStruct fs) Hwf) as [Hv Hok].
+  unfold dom_of in *. cbn [kids_of type_of et_of kt_of] in *.
+  set (f := if rec then dom_deep false else DLeaf) in *.
+  set (kids := map (fun x : Z * tval => (KField (fid (fst x)), f (snd x))) fs) in *.
+  assert (Hk : kids <> []) by (subst kids; destruct fs; [congruence|discriminate]).
+  destruct kids as [|k0 kr] eqn:Ek; [congruence|]. rewrite <- Ek in *. clear Ek k0 kr.
+  assert (Hc : clean_struct kids).
+  { subst kids. apply clean_struct_of_fields. intros x Hin.
+    assert (Hwx : wf (snd x) = true) by (apply (wf_child (VStruct fs)); [exact Hwf|cbn; apply in_map; exact Hin]).
+    subst f. destruct rec; [exists (snd x); apply dom_deep_sound; exact Hwx|exists (snd x); reflexivity]. }
+  assert (Hf : fields_of kids = fs).
+  { cbn [val_of_dom] in Hv. change (T_STRUCT =? T_STRUCT) with true in Hv. cbn iota in Hv. injection Hv as E. unfold fields_of, live_pairs. exact E. }
+  pose proof (struct_history_ast ops 0 0 (encode (VStruct fs)) kids Hk Hc Hops) as Hh. rewrite Hf in Hh.
+  apply marshal_dom; [|exact Hh]. apply dom_history_ok; [exact Hok|apply struct_hist_ok].
+Qed.
